@@ -15,7 +15,8 @@ MODULES = ["contracts.c08_mps", "contracts.c08_more"]
 T = "quimb/tensor/tn1d/core.py"
 C = "quimb/tensor/circuit/mps.py"
 CC = "quimb/tensor/circuit/core.py"
-FILES = (T, C, CC)
+G = "quimb/tensor/circuit/gates.py"
+FILES = (T, C, CC, G)
 
 MEAS = "MatrixProductState.measure@info=pair,outcome=None"
 SCONF = "MatrixProductState.sample_configuration"
@@ -24,10 +25,34 @@ CLEC = "MatrixProductState.compute_local_expectation_canonical@where=pair"
 LEC = "MatrixProductState.local_expectation_canonical"
 AUTO = "MatrixProductState.gate_with_auto_swap@info=pair"
 GSPLIT = "MatrixProductState.gate_split"
-SUBMPO = "MatrixProductState.gate_with_submpo@info=pair"
+SUBMPO = "MatrixProductState.gate_with_submpo@inplace=True,info=pair,method=direct,where=pair"
+SUBMPO_NIP = "MatrixProductState.gate_with_submpo@inplace=False,info=pair,method=direct,sweep_reverse=absent,where=pair"
 NONLOC = "MatrixProductState.gate_nonlocal@info=pair"
 GTN = "::gate_TN_1D@info=pair"
 VGATE = "TensorNetwork1DVector.gate@info=pair"
+CLE = "::CircuitMPS.local_expectation"
+CFE = "::CircuitMPS.fidelity_estimate"
+CSA = "::CircuitMPS.sample"
+AG = "::CircuitBase._apply_gate"
+ASW = "::apply_swap"
+ACM = "::_apply_controlled_gate_mps"
+ACG = "::apply_controlled_gate"
+PAG = "::CircuitPermMPS._apply_gate"
+PLE = "::CircuitPermMPS.local_expectation"
+LCO = "::CircuitMPSLazy._compress"
+LAG = "::CircuitMPSLazy._apply_gate"
+LLE = "::CircuitMPSLazy.local_expectation"
+LFE = "::CircuitMPSLazy.fidelity_estimate"
+LGP = "::CircuitMPSLazy.get_psi"
+LSA = "::CircuitMPSLazy.sample"
+SV = "MatrixProductState.schmidt_values"
+ENT = "MatrixProductState.entropy"
+SG = "MatrixProductState.schmidt_gap"
+BSS = "MatrixProductState.bipartite_schmidt_state"
+CAG = "::CircuitMPS.apply_gates"
+CPT = "::CircuitMPS.partial_trace"
+CGP = "::CircuitMPS.get_psi"
+PSA = "::CircuitPermMPS.sample"
 
 _GS_CALL = '            G, (ix_i, ix_j), contract="split", inplace=inplace, **compress_opts\n        )\n\n    gate_split_'
 _LEC_COMP = "                normalized=normalized,\n                info=info,\n                **contract_opts,\n            )\n            for where, G in terms"
@@ -38,6 +63,11 @@ MUTANTS = [
               '            # describing ``self``, not the copy that is canonicalized\n            info = info.copy()\n\n', '', "expect-fail"),
     (T, SCONF, "        if info is not None:\n            # a copy is canonicalized, so the record of ``self`` is only read\n            info = info.copy()\n\n", "", "expect-fail"),
     (T, SAMP, "        info = {} if info is None else info.copy()\n", "        info = {} if info is None else info\n", "expect-fail"),
+    # ---- reverts of the fixes of C08-d (measure(L-1, remove=True) left the record on a site that no longer exists) and
+    #      C08-f (int site keys of `terms` raised TypeError in the sort key)
+    (T, MEAS, "                tn ^= slice(site - 1, site + 1)\n                # the orthogonality center is now the new last site\n                info[\"cur_orthog\"] = (site - 1, site - 1)\n",
+     "                tn ^= slice(site - 1, site + 1)\n", "expect-fail"),
+    (T, "MatrixProductState.compute_local_expectation_canonical@where=int", "            return where if isinstance(where, Integral) else min(where)", "            return min(where)", "expect-fail"),
     # ---- measure
     (T, MEAS, "        tn.canonicalize_(site, info=info)\n\n        # local tensor and physical dim", "        tn.canonicalize_(site)\n\n        # local tensor and physical dim", "expect-fail"),
     (T, MEAS, "        tn = self if inplace else self.copy()\n        L = tn.L\n        d = self.phys_dim(site)", "        tn = self\n        L = tn.L\n        d = self.phys_dim(site)", "expect-fail"),
@@ -88,11 +118,13 @@ MUTANTS = [
     # ---- gate_with_submpo
     (T, SUBMPO, '        if compress_opts.get("sweep_reverse", False):\n            info["cur_orthog"] = (sf, sf)\n        else:\n            info["cur_orthog"] = (si, si)',
      '        if compress_opts.get("sweep_reverse", False):\n            info["cur_orthog"] = (si, si)\n        else:\n            info["cur_orthog"] = (sf, sf)', "expect-fail"),
-    (T, SUBMPO, "            psi.canonicalize_((si, sf), info=info)\n", "            psi.canonicalize_((si, si), info=info)\n", "expect-fail"),
+    # a centre anywhere INSIDE the operator's span is enough (the compression re-canonicalises the span): still sound
+    (T, SUBMPO, "            psi.canonicalize_((si, sf), info=info)\n", "            psi.canonicalize_((si, si), info=info)\n", "benign"),
+    (T, SUBMPO, "            psi.canonicalize_((si, sf), info=info)\n", "            psi.canonicalize_((si - 1, sf), info=info)\n", "expect-fail"),
     (T, SUBMPO, "            psi.canonicalize_((si, sf), info=info)\n", "            pass\n", "expect-fail"),
     (T, SUBMPO, "        sub_site_tags = [psi.site_tag(s) for s in range(si, sf + 1)]", "        sub_site_tags = [psi.site_tag(s) for s in range(si, sf)]", "expect-fail"),
     (T, SUBMPO, "        # recombine the compressed sub region TN\n        psi |= subpsi\n", "        # recombine the compressed sub region TN\n", "expect-fail"),
-    (T, SUBMPO, "        psi = self if inplace else self.copy()\n\n        # get the span of sites the sub-MPO acts on", "        psi = self\n\n        # get the span of sites the sub-MPO acts on", "expect-fail"),
+    (T, SUBMPO_NIP, "        psi = self if inplace else self.copy()\n\n        # get the span of sites the sub-MPO acts on", "        psi = self\n\n        # get the span of sites the sub-MPO acts on", "expect-fail"),
     (T, SUBMPO, "            si, sf = min(where), max(where)\n", "            si, sf = min(where), min(where)\n", "expect-fail"),
     # ---- gate_nonlocal
     (T, NONLOC, "            transpose=transpose,\n            info=info,\n            inplace=inplace,\n            inplace_mpo=True,", "            transpose=transpose,\n            inplace=inplace,\n            inplace_mpo=True,", "expect-fail"),
@@ -110,6 +142,101 @@ MUTANTS = [
     (T, VGATE, "        return gate_TN_1D(self, *args, inplace=inplace, **kwargs)", "        return gate_TN_1D(self, *args, **kwargs)", "expect-fail"),
     (T, VGATE, "        return gate_TN_1D(self, *args, inplace=inplace, **kwargs)", "        return gate_TN_1D(self.copy(), *args, inplace=inplace, **kwargs)", "expect-fail"),
     (T, VGATE, "        return gate_TN_1D(self, *args, inplace=inplace, **kwargs)", "        return gate_TN_1D(self, *args, inplace=inplace)", "expect-fail"),
+    # ---- CircuitMPS.local_expectation (first: revert of fix F09a -- the shared record followed a converted COPY)
+    (C, CLE, '            info = self.gate_opts["info"].copy()\n        else:', '            info = self.gate_opts["info"]\n        else:', "expect-fail"),
+    (C, CLE, "            psi = self._psi.copy()\n            self._maybe_convert(psi, dtype)\n            # a copy is canonicalized", "            psi = self._psi\n            self._maybe_convert(psi, dtype)\n            # a copy is canonicalized", "expect-fail"),
+    (C, CLE, "            normalized=normalized,\n            info=info,\n            **contract_opts,\n        )\n\n\nclass CircuitPermMPS", "            normalized=normalized,\n            **contract_opts,\n        )\n\n\nclass CircuitPermMPS", "expect-fail"),
+    (C, CLE, '            psi = self._psi\n            info = self.gate_opts["info"]\n', '            psi = self._psi\n            info = self.gate_opts["info"].copy()\n', "expect-fail"),
+    (C, CLE, "        if dtype is not None or not self.convert_eager:\n            psi = self._psi.copy()\n            self._maybe_convert(psi, dtype)\n            # a copy", "        if dtype is not None and not self.convert_eager:\n            psi = self._psi.copy()\n            self._maybe_convert(psi, dtype)\n            # a copy", "expect-fail"),
+    # ---- CircuitMPS.fidelity_estimate (reader)
+    (C, CFE, "        return abs(self._psi[cmin : cmax + 1].norm(tags=all)) ** 2", "        return abs(self._psi[cmin : cmax].norm(tags=all)) ** 2", "expect-fail"),
+    (C, CFE, "        return abs(self._psi[cmin : cmax + 1].norm(tags=all)) ** 2", "        return abs(self._psi[cmin + 1 : cmax + 1].norm(tags=all)) ** 2", "expect-fail"),
+    (C, CFE, "        cmin, cmax = cur_orthog\n", "        cmax, cmin = cur_orthog\n", "expect-fail"),
+    (C, CFE, "        cmin, cmax = cur_orthog\n", "        cmin, cmax = cur_orthog\n        self._psi.canonicalize_(cmin)\n", "expect-fail"),
+    # ---- CircuitMPS.sample
+    (C, CSA, "        for config, _ in psi.sample(C, seed=seed):\n            yield \"\".join(map(str, config))\n\n    def fidelity_estimate", "        psi.canonicalize_(0)\n        for config, _ in psi.sample(C, seed=seed):\n            yield \"\".join(map(str, config))\n\n    def fidelity_estimate", "expect-fail"),
+    (C, CSA, "        for config, _ in psi.sample(C, seed=seed):\n            yield \"\".join(map(str, config))\n\n    def fidelity_estimate", "        for config, _ in psi.sample(C, seed=seed):\n            self.gate_opts[\"info\"][\"cur_orthog\"] = (0, 0)\n            yield \"\".join(map(str, config))\n\n    def fidelity_estimate", "expect-fail"),
+    (C, CSA, "        for config, _ in psi.sample(C, seed=seed):\n            yield \"\".join(map(str, config))\n\n    def fidelity_estimate", "        for config, _ in psi.sample(C, seed=seed):\n            psi.measure_(0, info=self.gate_opts[\"info\"].copy())\n            yield \"\".join(map(str, config))\n\n    def fidelity_estimate", "expect-fail"),
+    # handing the shared record to MatrixProductState.sample is harmless since F09: it only reads (copies) it
+    (C, CSA, "        for config, _ in psi.sample(C, seed=seed):\n            yield \"\".join(map(str, config))\n\n    def fidelity_estimate", "        for config, _ in psi.sample(C, seed=seed, info=self.gate_opts[\"info\"]):\n            yield \"\".join(map(str, config))\n\n    def fidelity_estimate", "benign"),
+    # ---- CircuitBase._apply_gate
+    (CC, AG, "        opts = {**self.gate_opts, **gate_opts}\n", "        opts = {**gate_opts}\n", "expect-fail"),
+    (CC, AG, "        opts = {**self.gate_opts, **gate_opts}\n", "        opts = {**self.gate_opts, **gate_opts, \"info\": {}}\n", "expect-fail"),
+    (CC, AG, "            self._psi.gate_(G, gate.qubits, tags=tags, **opts)", "            self._psi.gate(G, gate.qubits, tags=tags, **opts)", "expect-fail"),
+    (CC, AG, "            apply_controlled_gate(self._psi, gate, tags=tags, **opts)", "            apply_controlled_gate(self._psi, gate, tags=tags)", "expect-fail"),
+    (CC, AG, "            apply_controlled_gate(self._psi, gate, tags=tags, **opts)", "            apply_controlled_gate(self._psi.copy(), gate, tags=tags, **opts)", "expect-fail"),
+    (CC, AG, "                self._psi, *gate.params, *gate.qubits, **opts\n", "                self._psi.copy(), *gate.params, *gate.qubits, **opts\n", "expect-fail"),
+    # ---- circuit/gates.py helpers
+    (G, ASW, "            psi.swap_sites_with_compress_(i, j, **gate_opts)", "            psi.swap_sites_with_compress(i, j, **gate_opts)", "expect-fail"),
+    (G, ASW, "            psi.swap_sites_with_compress_(i, j, **gate_opts)", "            psi.swap_sites_with_compress_(i, j)", "expect-fail"),
+    (G, ASW, "            psi.gate_nonlocal_(qu.swap(2), (i, j), **gate_opts)", "            psi.gate_nonlocal_(qu.swap(2), (i, j))", "expect-fail"),
+    (G, ASW, "        if contract == \"nonlocal\":\n            psi.gate_nonlocal_", "        if contract != \"nonlocal\":\n            psi.gate_nonlocal_", "expect-fail"),
+    (G, ACM, "    psi.gate_with_submpo_(submpo, where, **gate_opts)", "    psi.gate_with_submpo_(submpo, where)", "expect-fail"),
+    (G, ACM, "    psi.gate_with_submpo_(submpo, where, **gate_opts)", "    psi.gate_with_submpo(submpo, where, **gate_opts)", "expect-fail"),
+    (G, ACM, "    where = sorted((*gate.controls, *gate.qubits))", "    where = sorted((*gate.qubits, *gate.qubits))", "expect-fail"),
+    (G, ACG, "        _apply_controlled_gate_mps(psi, gate, tags=tags, **gate_opts)", "        _apply_controlled_gate_mps(psi, gate, tags=tags)", "expect-fail"),
+    (G, ACG, "        _apply_controlled_gate_mps(psi, gate, tags=tags, **gate_opts)", "        _apply_controlled_gate_mps(psi.copy(), gate, tags=tags, **gate_opts)", "expect-fail"),
+    (G, ACG, '    if contract in ("auto-mps", "nonlocal"):', '    if contract in ("auto-mps",):', "expect-fail"),
+    # ---- CircuitPermMPS
+    (C, PAG, "        super()._apply_gate(gate, tags=tags, **gate_opts)\n\n    def calc_qubit_ordering", "        super()._apply_gate(gate, tags=tags, info={}, **gate_opts)\n\n    def calc_qubit_ordering", "expect-fail"),
+    (C, PAG, "        super()._apply_gate(gate, tags=tags, **gate_opts)\n\n    def calc_qubit_ordering", "        super()._apply_gate(gate, tags=tags, contract=False, **gate_opts)\n\n    def calc_qubit_ordering", "expect-fail"),
+    (C, PAG, "        gate = gate.copy_with(qubits=phys_sites)\n", "        gate = gate.copy_with(qubits=[p + 1 for p in phys_sites])\n", "expect-fail"),
+    # the record stays true whether or not the sites are swapped back (the qubit bookkeeping is C07's matter)
+    (C, PAG, '            gate_opts["swap_back"] = False\n', '            pass\n', "benign"),
+    (C, PLE, "            where = self.qubits.index(where)\n", "            where = self.N\n", "expect-fail"),
+    (C, PLE, "        return super().local_expectation(G, where, *args, **kwargs)\n\n\nclass CircuitMPSLazy", "        return super().local_expectation(G, (0, self.N), *args, **kwargs)\n\n\nclass CircuitMPSLazy", "expect-fail"),
+    (C, PLE, "        return super().local_expectation(G, where, *args, **kwargs)\n\n\nclass CircuitMPSLazy", "        self._psi.canonicalize_(0)\n        return super().local_expectation(G, where, *args, **kwargs)\n\n\nclass CircuitMPSLazy", "expect-fail"),
+    # ---- CircuitMPSLazy
+    (C, LCO, '            self.gate_opts["info"]["cur_orthog"] = (self.N - 1, self.N - 1)  # type: ignore\n        else:\n            self.gate_opts["info"]["cur_orthog"] = (0, 0)',
+     '            self.gate_opts["info"]["cur_orthog"] = (0, 0)  # type: ignore\n        else:\n            self.gate_opts["info"]["cur_orthog"] = (self.N - 1, self.N - 1)', "expect-fail"),
+    (C, LCO, '            self.gate_opts["info"]["cur_orthog"] = (0, 0)\n', '            self.gate_opts["info"]["cur_orthog"] = (1, 1)\n', "expect-fail"),
+    (C, LCO, "        if not self._uncompressed_sites:\n            return\n", "        if self._uncompressed_sites:\n            return\n", "expect-fail"),
+    (C, LCO, "        self._uncompressed_sites.clear()\n\n        # compression mutates", "        # compression mutates", "expect-fail"),
+    (C, LCO, "            self._psi,\n            permute_arrays=False,\n            inplace=True,\n            **self.compress_opts,", "            self._psi.copy(),\n            permute_arrays=False,\n            inplace=True,\n            **self.compress_opts,", "expect-fail"),
+    (C, LAG, "        for site in range(min_site, max_site + 1):\n            self._uncompressed_sites[site] = (\n                self._uncompressed_sites.get(site, 0) + 1\n            )\n", "", "expect-fail"),
+    (C, LAG, '            gate, tags=tags, contract="nonlocal", method="lazy", **gate_opts\n', '            gate, tags=tags, contract="nonlocal", **gate_opts\n', "expect-fail"),
+    # one site fewer is counted: a pending operator is still counted somewhere (min_site < max_site), which is all the
+    # invariant needs (how many gates may pile up before a compression is a policy)
+    (C, LAG, "        for site in range(min_site, max_site + 1):\n            self._uncompressed_sites[site] = (", "        for site in range(min_site, max_site):\n            self._uncompressed_sites[site] = (", "benign"),
+    (C, LAG, "        for site in range(min_site, max_site + 1):\n            self._uncompressed_sites[site] = (", "        for site in range(min_site, min_site):\n            self._uncompressed_sites[site] = (", "expect-fail"),
+    (C, LAG, '            gate, tags=tags, contract="nonlocal", method="lazy", **gate_opts\n', '            gate, tags=tags, contract="nonlocal", method="lazy", info={}, **gate_opts\n', "benign"),
+    # compressing earlier or later is a policy: the invariant holds either way
+    (C, LAG, "                self._compress()\n                break", "                break", "benign"),
+    (C, LLE, "    def local_expectation(self, G, where, *args, **kwargs):\n        self._compress()\n        return super().local_expectation", "    def local_expectation(self, G, where, *args, **kwargs):\n        return super().local_expectation", "expect-fail"),
+    (C, LFE, "    def fidelity_estimate(self):\n        self._compress()\n        return super().fidelity_estimate()", "    def fidelity_estimate(self):\n        return super().fidelity_estimate()", "expect-fail"),
+    (C, LGP, "        self._compress()\n        return super().get_psi()", "        return super().get_psi()", "expect-fail"),
+    (C, LSA, "    def sample(self, C, *args, **kwargs):\n        self._compress()\n        yield from", "    def sample(self, C, *args, **kwargs):\n        yield from", "expect-fail"),
+    # ---- thin wrappers over singular_values
+    (T, SV, "        return self.singular_values(i, info=info, method=method) ** 2", "        return self.singular_values(i, method=method) ** 2", "expect-fail"),
+    (T, SV, "        return self.singular_values(i, info=info, method=method) ** 2", "        return self.singular_values(i + 1, info=info, method=method) ** 2", "expect-fail"),
+    (T, SV, "        return self.singular_values(i, info=info, method=method) ** 2", "        return self.singular_values(i, info=dict(info), method=method) ** 2", "expect-fail"),
+    (T, SV, "        return self.singular_values(i, info=info, method=method) ** 2", "        return self.copy().singular_values(i, info=info, method=method) ** 2", "expect-fail"),
+    (T, ENT, "        S = self.schmidt_values(i, info=info, method=method)\n        S = S[S > 0.0]", "        S = self.schmidt_values(i, method=method)\n        S = S[S > 0.0]", "expect-fail"),
+    (T, ENT, "        S = self.schmidt_values(i, info=info, method=method)\n        S = S[S > 0.0]", "        S = self.schmidt_values(i - 1, info=info, method=method)\n        S = S[S > 0.0]", "expect-fail"),
+    (T, ENT, "        S = self.schmidt_values(i, info=info, method=method)\n        S = S[S > 0.0]", "        S = self.schmidt_values(i, info=info.copy(), method=method)\n        S = S[S > 0.0]", "expect-fail"),
+    (T, ENT, "        S = self.schmidt_values(i, info=info, method=method)\n        S = S[S > 0.0]", "        S = self.schmidt_values(i, info=info, method=method)\n        self.canonicalize_(0)\n        S = S[S > 0.0]", "expect-fail"),
+    (T, SG, "        S = self.schmidt_values(i, info=info, method=method)\n\n        if len(S) == 1:", "        S = self.schmidt_values(i, method=method)\n\n        if len(S) == 1:", "expect-fail"),
+    (T, SG, "        S = self.schmidt_values(i, info=info, method=method)\n\n        if len(S) == 1:", "        S = self.schmidt_values(i + 1, info=info, method=method)\n\n        if len(S) == 1:", "expect-fail"),
+    (T, SG, "        S = self.schmidt_values(i, info=info, method=method)\n\n        if len(S) == 1:", "        S = self.schmidt_values(i, info=dict(info), method=method)\n\n        if len(S) == 1:", "expect-fail"),
+    (T, SG, "        S = self.schmidt_values(i, info=info, method=method)\n\n        if len(S) == 1:", "        S = self.schmidt_values(i, info=info, method=method)\n        self.left_canonicalize_()\n\n        if len(S) == 1:", "expect-fail"),
+    (T, BSS, '        s = do("diag", self.singular_values(sz_a, info=info))', '        s = do("diag", self.singular_values(sz_a))', "expect-fail"),
+    (T, BSS, '        s = do("diag", self.singular_values(sz_a, info=info))', '        s = do("diag", self.singular_values(sz_a - 1, info=info))', "expect-fail"),
+    (T, BSS, '        s = do("diag", self.singular_values(sz_a, info=info))', '        s = do("diag", self.singular_values(sz_a, info=dict(info or {})))', "expect-fail"),
+    (T, BSS, '        s = do("diag", self.singular_values(sz_a, info=info))', '        s = do("diag", self.copy().singular_values(sz_a, info=info))', "expect-fail"),
+    # ---- CircuitMPS.apply_gates / partial_trace / get_psi, CircuitPermMPS.sample
+    (C, CAG, "            self._apply_gate(gate, **gate_opts)\n\n            if progbar and", "            self._psi.gate_(gate.array, gate.qubits)\n\n            if progbar and", "expect-fail"),
+    (C, CAG, "            self._apply_gate(gate, **gate_opts)\n\n            if progbar and", "            self._apply_gate(gate, info={}, **gate_opts)\n\n            if progbar and", "expect-fail"),
+    (C, CAG, "            self._apply_gate(gate, **gate_opts)\n\n            if progbar and", "            self._apply_gate(gate, **gate_opts)\n            self.gate_opts[\"info\"] = {}\n\n            if progbar and", "expect-fail"),
+    (C, CAG, "            self._apply_gate(gate, **gate_opts)\n\n            if progbar and", "            self._apply_gate(gate, **gate_opts)\n            self._psi.canonicalize_(0)\n\n            if progbar and", "expect-fail"),
+    (C, CPT, "        ket = self.psi\n        self._maybe_convert(ket, dtype)\n\n        k_inds", "        ket = self._psi\n        self._maybe_convert(ket, dtype)\n\n        k_inds", "expect-fail"),
+    (C, CPT, "        ket = self.psi\n        self._maybe_convert(ket, dtype)\n\n        k_inds", "        ket = self._psi.canonicalize_(0)\n        self._maybe_convert(ket, dtype)\n\n        k_inds", "expect-fail"),
+    (C, CPT, "        ket = self.psi\n        self._maybe_convert(ket, dtype)\n\n        k_inds", "        ket = self._psi.canonicalize_(0, info=self.gate_opts[\"info\"])\n        self._maybe_convert(ket, dtype)\n\n        k_inds", "expect-fail"),
+    (C, CGP, '        """Get a copy of the current matrix product state."""\n        psi = self._psi.copy()', '        """Get a copy of the current matrix product state."""\n        psi = self._psi', "expect-fail"),
+    (C, CGP, '        """Get a copy of the current matrix product state."""\n        psi = self._psi.copy()', '        """Get a copy of the current matrix product state."""\n        psi = self._psi.canonicalize(0, info=self.gate_opts["info"])', "expect-fail"),
+    (C, CGP, '        """Get a copy of the current matrix product state."""\n        psi = self._psi.copy()', '        """Get a copy of the current matrix product state."""\n        self._psi.left_canonicalize_()\n        psi = self._psi.copy()', "expect-fail"),
+    (C, PSA, "        for config, _ in psi.sample(C, seed=seed):\n            yield \"\".join(\n                str(config[site_from_qubit[i]])", "        psi.canonicalize_(0)\n        for config, _ in psi.sample(C, seed=seed):\n            yield \"\".join(\n                str(config[site_from_qubit[i]])", "expect-fail"),
+    (C, PSA, "        for config, _ in psi.sample(C, seed=seed):\n            yield \"\".join(\n                str(config[site_from_qubit[i]])", "        for config, _ in psi.sample(C, seed=seed):\n            self.gate_opts[\"info\"][\"cur_orthog\"] = (0, 0)\n            yield \"\".join(\n                str(config[site_from_qubit[i]])", "expect-fail"),
+    (C, PSA, "        for config, _ in psi.sample(C, seed=seed):\n            yield \"\".join(\n                str(config[site_from_qubit[i]])", "        for config, _ in psi.sample(C, seed=seed):\n            psi.measure_(0, info=self.gate_opts[\"info\"].copy())\n            yield \"\".join(\n                str(config[site_from_qubit[i]])", "expect-fail"),
 ]
 
 
@@ -124,7 +251,7 @@ def run_mutant(tmp, relpath, suffix, old, new):
         return "stale", f"no contract registered for {suffix}"
     con = cons[0]
     all_cases = con.cases()
-    orig_discharge, orig_cases = pyvc.discharge, con.cases
+    orig_discharge, orig_cases, orig_floor = pyvc.discharge, con.cases, con.floor
 
     def norm(rep):
         # (case, label) with line numbers and the path signature removed: a mutant is caught only by a clause that
@@ -133,6 +260,7 @@ def run_mutant(tmp, relpath, suffix, old, new):
 
     try:
         con.cases = lambda: [c for c in all_cases if all(s in c.name for s in sel.split(",") if s)]
+        con.floor = 1  # (the vacuity floor is for the full case list)
         pyvc.discharge = lambda ob, **kw: orig_discharge(ob, timeout_ms=3000, portfolio=False)
         key = (suffix, sel)
         if key not in _BASE:
@@ -150,7 +278,7 @@ def run_mutant(tmp, relpath, suffix, old, new):
     finally:
         pyvc.REPO = "/repo"
         pyvc._SRC_CACHE.clear()
-        pyvc.discharge, con.cases = orig_discharge, orig_cases
+        pyvc.discharge, con.cases, con.floor = orig_discharge, orig_cases, orig_floor
         for other in FILES:
             try:
                 os.remove(os.path.join(tmp, other))
